@@ -4,6 +4,7 @@ package harness
 // Generation over trees and targets; exhaustive enumeration of every single missing entity block per case.
 
 import (
+	"context"
 	"fmt"
 	"io"
 	"testing"
@@ -11,8 +12,8 @@ import (
 	"github.com/ipfs/go-cid"
 	"github.com/ipfs/go-unixfsnode"
 	"github.com/ipld/go-ipld-prime"
-	cidlink "github.com/ipld/go-ipld-prime/linking/cid"
 	"github.com/ipld/go-ipld-prime/datamodel"
+	cidlink "github.com/ipld/go-ipld-prime/linking/cid"
 	"github.com/ipld/go-ipld-prime/traversal"
 	"github.com/ipld/go-ipld-prime/traversal/selector"
 	"pgregory.net/rapid"
@@ -23,9 +24,27 @@ const c06Rule = "case = (tree whose entries are real stored DAGs, a target entit
 	"non-trivial = entity with >= 3 blocks on >= 2 levels, and every fault run; distinct by (entity kind, block count bucket, access, fault position class)"
 
 // c06Access performs the access and returns the requested blocks (excluding harness loads) and the error.
+// c06Ctx is the context the accesses run under (Background unless a case installs one to cancel).
+var c06Ctx = context.Background()
+
 func c06Access(st *Store, root *tnode, target *tnode, path string, access string) (log []cid.Cid, err error, p any) {
 	ls := st.LinkSystem()
 	p, _ = safe(func() {
+		if access == "reifier-via-reifying-ls" {
+			// the preload reifier on a link system that itself reifies every node it loads (NodeReifier = Reify): inner file
+			// nodes reach the readers already reified
+			pn, e := loadPlain(ls, target.Root)
+			if e != nil {
+				err = fmt.Errorf("harness load of entity root: %w", e)
+				return
+			}
+			ls2 := *ls
+			ls2.NodeReifier = unixfsnode.Reify
+			st.ResetLogs()
+			_, err = ls2.KnownReifiers["unixfs-preload"](ipld.LinkContext{Ctx: c06Ctx}, pn, &ls2)
+			log = st.ReadLog()
+			return
+		}
 		if access == "entity-walk-of-probed-node" {
 			// the root is reified lazily, its size is probed (Seek to the end on a reader), then the entity walk starts from
 			// that already reified node: it still has to touch every block
@@ -45,7 +64,7 @@ func c06Access(st *Store, root *tnode, target *tnode, path string, access string
 				return
 			}
 			st.ResetLogs()
-			prog := traversal.Progress{Cfg: &traversal.Config{LinkSystem: *ls, LinkTargetNodePrototypeChooser: protoChooser}}
+			prog := traversal.Progress{Cfg: &traversal.Config{Ctx: c06Ctx, LinkSystem: *ls, LinkTargetNodePrototypeChooser: protoChooser}}
 			err = prog.WalkMatching(rn, sel, unixfsnode.BytesConsumingMatcher)
 			log = st.ReadLog()
 			return
@@ -57,7 +76,7 @@ func c06Access(st *Store, root *tnode, target *tnode, path string, access string
 				return
 			}
 			st.ResetLogs()
-			_, err = ls.KnownReifiers["unixfs-preload"](lc0, pn, ls)
+			_, err = ls.KnownReifiers["unixfs-preload"](ipld.LinkContext{Ctx: c06Ctx}, pn, ls)
 			log = st.ReadLog()
 			return
 		}
@@ -76,11 +95,37 @@ func c06Access(st *Store, root *tnode, target *tnode, path string, access string
 			return
 		}
 		st.ResetLogs()
-		prog := traversal.Progress{Cfg: &traversal.Config{LinkSystem: *ls, LinkTargetNodePrototypeChooser: protoChooser}}
+		prog := traversal.Progress{Cfg: &traversal.Config{Ctx: c06Ctx, LinkSystem: *ls, LinkTargetNodePrototypeChooser: protoChooser}}
 		err = prog.WalkMatching(pn, sel, unixfsnode.BytesConsumingMatcher)
 		log = st.ReadLog()
 	})
 	return
+}
+
+// c06Cancelled repeats the access under a context that is cancelled when the k-th block of the access is requested,
+// while storage keeps serving: the access may fail (it was told to stop) but if it reports success the whole entity
+// must have been requested. Returns an error describing a violation.
+func c06Cancelled(st *Store, root, target *tnode, path, access string, k int, mustFetch []cid.Cid) error {
+	ctx, cancel := context.WithCancel(context.Background())
+	defer cancel()
+	c06Ctx = ctx
+	st.CancelAt, st.Cancel = k, cancel
+	log, err, p := c06Access(st, root, target, path, access)
+	st.CancelAt, st.Cancel = 0, nil
+	c06Ctx = context.Background()
+	if p != nil {
+		return fmt.Errorf("context cancelled at load #%d: panic %v", k, p)
+	}
+	if err != nil {
+		return nil
+	}
+	got := cidSet(log)
+	for i, c := range mustFetch {
+		if !got[c] {
+			return fmt.Errorf("context cancelled when load #%d was requested (storage kept serving): the access reported success although block #%d of %d of the entity (%s) was never requested", k, i+1, len(mustFetch), c)
+		}
+	}
+	return nil
 }
 
 func TestC06_P_EntityFetch(t *testing.T) {
@@ -151,6 +196,20 @@ func TestC06_P_EntityFetch(t *testing.T) {
 		nt := len(target.Entity) >= 3 && levels >= 2
 		ev.Case(fmt.Sprintf("%s b=%s %s", kind, bucket(len(target.Entity)), access), nt, "entity:"+kind, "access:"+access, fmt.Sprintf("levels:%d", levels), "blocks:"+bucket(len(target.Entity)))
 
+		// the request's context is cancelled while some block of the access is being requested and storage keeps serving:
+		// success must still mean the whole entity
+		if len(log) > 0 {
+			var mustFetch []cid.Cid
+			for i, c := range target.Entity {
+				if !(i == 0 && rootInHand) {
+					mustFetch = append(mustFetch, c)
+				}
+			}
+			k := rapid.IntRange(1, len(log)).Draw(t, "cancelAt")
+			if cerr := c06Cancelled(st, root, target, path, access, k, mustFetch); cerr != nil {
+				t.Fatalf("C06 [%s]: %v", desc, cerr)
+			}
+		}
 		// fault enumeration: every entity block (the root too when reached through a path)
 		nfault := 0
 		for i, c := range target.Entity {
@@ -195,7 +254,7 @@ func TestC06_P_HandmadeFiles(t *testing.T) {
 	ev := newEvid(t, c06HandRule)
 	rapid.Check(t, func(t *rapid.T) {
 		fc := genHandFileDAG(t, true)
-		access := rapid.SampledFrom([]string{"reifier", "preload-selector", "entity-selector", "entity-walk-of-probed-node"}).Draw(t, "access")
+		access := rapid.SampledFrom([]string{"reifier", "preload-selector", "entity-selector", "entity-walk-of-probed-node", "reifier-via-reifying-ls"}).Draw(t, "access")
 		target := &tnode{Root: fc.Root, Data: fc.Data, Entity: fc.Tree.PreOrder()}
 		log, err, p := c06Access(fc.St, target, target, "", access)
 		if p != nil {
@@ -220,6 +279,12 @@ func TestC06_P_HandmadeFiles(t *testing.T) {
 		for _, n := range fc.Tree.All() {
 			if len(n.Kids) == 0 && n.Start == n.End {
 				hasEmpty = true
+			}
+		}
+		if len(target.Entity) > 1 {
+			k := rapid.IntRange(1, len(target.Entity)).Draw(t, "cancelAt")
+			if cerr := c06Cancelled(fc.St, target, target, "", access, k, target.Entity[1:]); cerr != nil {
+				t.Fatalf("C06 [%s via %s]: %v", fc.Desc, access, cerr)
 			}
 		}
 		ev.Case(fc.Writer+" "+access, hasEmpty, "access:"+access, fmt.Sprintf("hasEmptyChunk:%v", hasEmpty))
